@@ -118,6 +118,21 @@ class Feed:
         Feed.calls = []
 
 
+def drawn_fresh(calls, wanted):
+    """each wanted (size, value) is the value of its own draw of that size among `calls` (the draws of this operation only), no draw serving two roles;
+    the ORDER of the draws is not prescribed (the property does not fix it), nor is drawing more than needed"""
+    def rec(i, used):
+        if i == len(wanted):
+            return True
+        size, val = wanted[i]
+        for j in range(len(calls)):
+            if j not in used and calls[j][0] == size and calls[j][1] == val:
+                if rec(i + 1, used | {j}):
+                    return True
+        return False
+    return rec(0, frozenset())
+
+
 class _Os:
     def __init__(self, real):
         self._real = real
